@@ -550,7 +550,9 @@ Finish == /\ phase = "run" /\ phase' = "done"
           /\ ctx = "sig" => (sigst = "sent" /\ P["kpend:USR1"] = "-" /\ P["pend:USR1"] = "-")
           \* (an interrupt in an interactive shell abandons the command line being executed,
           \*  here the trap action that contains the construct and the "after" probe: left out)
-          /\ (ctx = "trap" /\ mode = "interactive") => fin' # "selfkill INT"
+          \*  likewise the compound command / and-or list / negated pipeline whose condition holds the
+          \*  construct (the contexts of CondCtxs), together with what follows it on the command line)
+          /\ (ctx \in {"trap"} \cup CondCtxs /\ mode = "interactive") => fin' # "selfkill INT"
           /\ Total >= MinTotal \/ Total = MaxTotal \/ Saturated
           /\ UNCHANGED <<kind, ctx, mode, pre, chs, post, P, P0, C, C0, ran, sigst, pran>>
 
